@@ -1193,7 +1193,9 @@ def tb_valid(rng, ranked=False):
     else:
         syms = [(_tb_name(rng), rng.choice([0, 0, 1, 2, 3, -1, 10])) for _ in range(rng.randint(0, 3))]
         sts = [_tb_name(rng) for _ in range(rng.randint(0, 3))]
-    out = b"Ops " + b"".join(s + b":" + str(r).encode() + b" " for s, r in syms) + b"\n"
+    # an `Ops` entry may come without `:arity` (the parser records -1) – in a sixth of the unranked files one entry does
+    bare = rng.randrange(len(syms)) if (syms and not ranked and rng.random() < 0.17) else -1
+    out = b"Ops " + b"".join((s + b" ") if i == bare else (s + b":" + str(r).encode() + b" ") for i, (s, r) in enumerate(syms)) + b"\n"
     out += b"Automaton " + rng.choice([b"A", b"anonymous", _tb_name(rng)]) + b"\n"
     out += b"States " + b"".join(s + rng.choice([b"", b":0", b":1"]) + b" " for s in sts) + b"\n"
     out += b"Final States " + b"".join(s + b" " for s in sts if rng.random() < 0.5) + b"\n"
@@ -1410,14 +1412,14 @@ def cliop_case(rng, rep, op):
     elif op == "simup":
         A = py_trim(rand_ta(rng, nmax=5))
         B = None
-    elif op in ("union", "isect"):
+    elif op in ("union", "isect", "unions", "unionp", "isects", "isectp"):
         A, B, _ = rand_pair(rng)
     else:
         A = rand_ta(rng, nmax=5, dials=dict(dead_child=0.25, final_norule=0.15))
         B = None
     # the text format cannot express a rule twice or an automaton without any symbol: normalise
     A = TA(list(dict.fromkeys(A.rules)), sorted(set(A.finals)))
-    if op in ("union", "isect"):
+    if op in ("union", "isect", "unions", "unionp", "isects", "isectp"):
         B = TA(list(dict.fromkeys(B.rules)), sorted(set(B.finals)))
         # a third of the cases: state names that contain the CLI's own name separators (`_1|`)
         return f"cliop {rep} {op} {A.tok()} {B.tok()}" + (" nm=1" if rng.random() < 0.35 else "")
@@ -1432,13 +1434,13 @@ def mk_cliop(choices):
 
 
 CLIOPS = {
-    "cliop_c02": [("expl", "union"), ("expl", "isect")],
+    "cliop_c02": [("expl", "union"), ("expl", "isect"), ("expl", "union"), ("expl", "isect"), ("expl", "unions"), ("expl", "unionp"), ("expl", "isects"), ("expl", "isectp")],
     "cliop_c03": [("expl", "load"), ("expl", "loadp"), ("expl", "loads")],
     "cliop_c04": [("expl", "simdown"), ("expl", "simup")],
     "cliop_c05": [("expl", "red")],
     "cliop_c06": [("expl", "cmpl")],
-    "cliop_c08": [(r, o) for r in ("bdd-td", "bdd-bu") for o in ("load", "loadp", "loads", "union", "isect")],
-    "cliop_c10": [("expl_fa", o) for o in ("load", "loadp", "loads", "witness", "union", "isect")],
+    "cliop_c08": [(r, o) for r in ("bdd-td", "bdd-bu") for o in ("load", "loadp", "loads", "union", "isect", "unions", "isectp")],
+    "cliop_c10": [("expl_fa", o) for o in ("load", "loadp", "loads", "witness", "union", "isect", "unionp", "isects")],
     "cliop_c15": [("expl", "witness")],
 }
 
@@ -1479,12 +1481,50 @@ GENERATORS = {
 }
 
 
+def widen_symbols(rng, case, prob=0.3):
+    """BDD encodings number symbol NAMES through a process-wide dictionary and counter: with only s0..s7 a process never sees the
+    counter beyond 8.  In a fraction of the BDD cases every symbol id f becomes f + 8·K (K random per symbol, consistent inside
+    the case; the rank class f mod 8 is kept), so that one harness process registers hundreds of names."""
+    if rng.random() >= prob:
+        return case
+    toks = case.split(" ")
+    mp = {}
+
+    def remap_tok(tok):
+        if "|" not in tok:
+            return tok
+        head, sep_, body = "", "", tok
+        for sepc in ("!",):
+            if sepc in tok:
+                i = tok.rindex(sepc)
+                head, sep_, body = tok[:i], sepc, tok[i + 1:]
+        try:
+            A = TA.parse(body)
+        except Exception:
+            return tok
+        rules = []
+        for (f, ks, p_) in A.rules:
+            if f not in mp:
+                mp[f] = f + 8 * rng.randrange(0, 64)
+            rules.append((mp[f], ks, p_))
+        return head + sep_ + TA(rules, A.finals).tok()
+    return " ".join([toks[0]] + [remap_tok(t) for t in toks[1:]])
+
+
+def _widened(g):
+    return lambda rng: widen_symbols(rng, g(rng))
+
+
 def _capped(g, sep, cap):
     return lambda rng: cap_products(g(rng), sep, cap)
 
 
 for _k, _sep, _cap in [("nfah_ops", ":", 2), ("nfah_hist", ":", 2), ("tah_hist", "!", 1), ("nfas", ":", 2), ("bddpre", "!", 1)]:
     GENERATORS[_k] = _capped(GENERATORS[_k], _sep, _cap)
+
+
+for _k in ("bddh", "bddtd", "bddincl", "bddpre"):
+    GENERATORS[_k] = _widened(GENERATORS[_k])
 
 
 def generate(kind_weights, n, seed):
